@@ -187,12 +187,13 @@ func genTargets(r *hx.Rand) int {
 		return r.Range(2, 5)
 	case k < 17:
 		return r.Range(6, 20)
-	case k < 19 || !r.Chance(1, 3):
+	case k < 19 || !r.Chance(1, 20):
 		return r.Range(21, 60)
 	default:
 		// many targets: most slot counts are 0 or bumped to 1, the ring grows well beyond 10⁴ slots, and the ring
-		// is shipped as an index array instead of one character per slot
-		return r.Range(80, 220)
+		// is shipped as an index array instead of one character per slot (rare: the table model re-weighs the
+		// route after every command, a script with 150 targets costs as much as 50 ordinary ones)
+		return r.Range(80, 160)
 	}
 }
 
